@@ -13,7 +13,10 @@ import (
 
 	"github.com/q191201771/lal/pkg/base"
 	"github.com/q191201771/lal/pkg/hls"
+	"github.com/q191201771/lal/pkg/httpflv"
+	"github.com/q191201771/lal/pkg/httpts"
 	"github.com/q191201771/lal/pkg/logic"
+	"github.com/q191201771/lal/pkg/rtmp"
 )
 
 const (
@@ -53,6 +56,8 @@ type LalConf struct {
 	Auth             map[string]bool `json:"auth,omitempty"`
 	AuthKey          string          `json:"auth_key,omitempty"`
 	AuthOverride     string          `json:"auth_override,omitempty"`
+	// QueueSize: size of the per-subscriber asynchronous write queues (0: lal's default 1024)
+	QueueSize int `json:"queue_size,omitempty"`
 	// NoHook: do not install the stream hook (lal counts a hook as a consumer of the stream)
 	NoHook bool `json:"no_hook,omitempty"`
 }
@@ -189,6 +194,13 @@ func StartWorld(k *sim.Kernel, conf LalConf, mods ...logic.ModOption) *World {
 		o.NotifyHandler = w.Notify
 	}}, mods...)
 	hls.ZzSetFsl(k.FS.Fsl())
+	q := conf.QueueSize
+	if q == 0 {
+		q = 1024
+	}
+	rtmp.ZzSetWChanSize(q)
+	httpflv.SubSessionWriteChanSize = q
+	httpts.SubSessionWriteChanSize = q
 	w.Srv = logic.NewLalServer(all...)
 	w.Hook = &HookRecorder{k: k}
 	if !conf.NoHook {
